@@ -348,6 +348,9 @@ func c22ReadParams(c *Ctx) bool {
 		switch {
 		case hit != "":
 			r.Bad("C22.4", "utlsReadServerParameters:ApplicationSettings-key", c.Pos(ix), "the client's settings are looked up with serverHello.%s, which checkServerHelloOrHRR has proven empty on every path that reaches this point (a TLS 1.3 ServerHello carrying it is rejected): the lookup can only find the \"\" entry, so the configured settings for the negotiated protocol are never sent; the key must be the negotiated protocol (c.clientProtocol)", hit)
+		case an.MentionsField(info, key, "clientHelloMsg", "alpnProtocols") || an.MentionsField(info, key, "Config", "NextProtos") || an.MentionsField(info, key, "PubClientHelloMsg", "AlpnProtocols"):
+			// (seeded C22-5) an element of the list of offers is not the protocol the server selected
+			r.Bad("C22.4", "utlsReadServerParameters:ApplicationSettings-key", c.Pos(ix), "the client's settings are looked up with %s, an entry of the list of offered protocols: when the server selects another offered protocol the settings of the wrong protocol are sent; the key must be the negotiated protocol (c.clientProtocol)", an.Str(key))
 		case isProto(key):
 			keyOK = true
 			r.Ok("C22.4", "utlsReadServerParameters:ApplicationSettings-key", c.Pos(ix), "lookup keyed by the negotiated protocol %s", an.Str(key))
